@@ -72,6 +72,59 @@ def battery():
                 b={"y": 1, "x": [True, None]}, a=jsx("fn"), class_="c", style={"m": "1", "a": "2"})
         return dg(str(x), deps_sig(HTMLDocument(x).render()["dependencies"]))
 
+    def jsx_component_b():
+        # a second, unrelated component: nothing of the first one may show up in it
+        Baz = jsx_tag_create("Baz")
+        x = Baz(tags.span("only", dep("jb1")), p=tags.i(dep("jb2")))
+        t = x.tagify()
+        return dg(str(x), deps_sig(t.get_dependencies(dedup=False)), deps_sig(HTMLDocument(x).render()["dependencies"]))
+
+    def failed_operations():
+        # renders and saves that fail half-way (an object raises from tagify()), in both render modes: they
+        # must leave no trace in the process
+        import htmltools
+        import tempfile, shutil, os
+
+        class Boom:
+            def tagify(self):
+                raise RuntimeError("boom")
+
+        hook0 = sys.displayhook
+        outcomes = []
+        for mode in ("invisible", "json"):
+            assert htmltools.html_dependency_render_mode == "invisible"
+            htmltools.html_dependency_render_mode = mode
+            try:
+                for what in ("tag", "list", "document", "save", "jsx"):
+                    try:
+                        if what == "tag":
+                            tags.div(dep("f1"), Boom()).render()
+                        elif what == "list":
+                            str(TagList("a", tags.p(Boom())))
+                        elif what == "document":
+                            HTMLDocument(tags.div(dep("f2")), tags.p(Boom())).render()
+                        elif what == "jsx":
+                            str(jsx_tag_create("Fails")(tags.div(dep("f3")), Boom()))
+                        else:
+                            d = tempfile.mkdtemp(prefix="hv-c18-")
+                            try:
+                                tags.div(Boom()).save_html(os.path.join(d, "i.html"))
+                            finally:
+                                shutil.rmtree(d, ignore_errors=True)
+                        outcomes.append("no-error")
+                    except RuntimeError:
+                        outcomes.append("raised")
+                    if htmltools.html_dependency_render_mode != mode:
+                        PROBLEMS.append(f"a {what} render that failed in {mode} mode left html_dependency_render_mode = "
+                                        f"{htmltools.html_dependency_render_mode!r}")
+                        htmltools.html_dependency_render_mode = mode
+                    if sys.displayhook is not hook0:
+                        PROBLEMS.append(f"a {what} render that failed left sys.displayhook replaced")
+                        sys.displayhook = hook0
+            finally:
+                htmltools.html_dependency_render_mode = "invisible"
+        return dg(*outcomes)
+
     def attr_merges():
         t = Tag("div", {"zeta": "1", "class": "a", "alpha": "2"}, {"class": HTML("b"), "mu": True},
                 tags.span("k", beta="b", alpha="a"), class_="c", data_x=3, omega="w")
@@ -206,7 +259,8 @@ def battery():
     return [("version_spelling_a", version_spelling_a), ("adapter_with_tagify", adapter_with_tagify),
             ("version_spelling_b", version_spelling_b), ("adapter_without_tagify", adapter_without_tagify),
             ("escapes", escapes), ("json_mode", json_mode), ("text_document_b", text_document_b), ("shared_page", shared_page), ("many_deps", many_deps), ("dup_head_content", dup_head_content), ("text_document", text_document),
-            ("jsx_component", jsx_component), ("attr_merges", attr_merges), ("resolution", resolution)]
+            ("jsx_component", jsx_component), ("attr_merges", attr_merges), ("resolution", resolution),
+            ("jsx_component_b", jsx_component_b), ("failed_operations", failed_operations)]
 
 
 HC_PAYLOADS = [
@@ -315,7 +369,8 @@ def main():
     hc = head_content_facts()
     hc["problems"] += sorted(set(PROBLEMS))
     out = {"digests": first, "order_dependent": order_dependent[:5], "executions": nexec,
-           "hc": hc, "mode": htmltools.html_dependency_render_mode}
+           "hc": hc, "mode": htmltools.html_dependency_render_mode if sys.displayhook is sys.__displayhook__
+           else "displayhook-replaced"}
     print(json.dumps(out))
 
 
